@@ -1,12 +1,10 @@
 (* C18 — the property, as boolean predicates on a source and a list of top-level tokens; independent of
    the lexer model's control flow (used both as the statement of the theorems about the model and as the
    oracle applied to the tokens the REAL lexer returned). *)
-From Coq Require Import List Arith Bool.
+From Coq Require Import List Arith NArith Bool.
 Import ListNotations.
 From V.gen Require Import TokenTable.
 From V.Lexer Require Import Model.
-
-Definition slice (s : list nat) (a b : nat) : list nat := firstn (b - a) (skipn a s).
 
 Fixpoint list_eqb (a b : list nat) : bool :=
   match a, b with
@@ -33,10 +31,10 @@ Definition lines_ok (s : list nat) (ts : list tok) : bool := forallb (line_ok s)
 (* "for identifiers, keywords, operators, numbers and unescaped strings the token text is exactly the source
    text at that span": identifiers incl. variables; keywords and operators = every type of the token table;
    numbers = INT FLOAT NUMBER; strings whose source text contains no backslash *)
-Definition table_type (t : nat) : bool := existsb (fun d => fst d =? t) token_defs.
+Definition table_type (t : N) : bool := existsb (fun d => fst d =T t) token_defs.
 Definition text_class (s : list nat) (t : tok) : bool :=
-  (ty t =? T_IDENTIFIER) || (ty t =? T_VARIABLE) || (ty t =? T_INT) || (ty t =? T_FLOAT) || (ty t =? T_NUMBER) ||
-  ((ty t =? T_STRING) && negb (existsb (Nat.eqb 92) (slice s (st t) (en t)))) ||
+  (ty t =T T_IDENTIFIER) || (ty t =T T_VARIABLE) || (ty t =T T_INT) || (ty t =T T_FLOAT) || (ty t =T T_NUMBER) ||
+  ((ty t =T T_STRING) && negb (existsb (Nat.eqb 92) (slice s (st t) (en t)))) ||
   table_type (ty t).
 Definition text_ok (s : list nat) (t : tok) : bool :=
   if text_class s t then list_eqb (lit t) (slice s (st t) (en t)) else true.
